@@ -17,7 +17,7 @@ dvars == <<file, pos, rn, redges, failed>>
 
 \* ---- the reader as a state machine over all small files (MC_Dimacs) ---------------------
 CONSTANTS NV, NL, WS
-Lines == {[k |-> "c"]} \cup {[k |-> "e", s |-> s, t |-> t, w |-> w] : s \in 1..(NV + 1), t \in 1..(NV + 1), w \in WS \cup {Omitted}}
+Lines == {[k |-> "c"]} \cup {[k |-> "e", s |-> s, t |-> t, w |-> w] : s \in 0..(NV + 1), t \in 0..(NV + 1), w \in WS \cup {Omitted}}   \* 0 and NV + 1 are never declared
 Files == UNION {{[lines |-> <<[k |-> "p", n |-> n, m |-> 0]>> \o body, nl |-> nl] :
                    body \in [1..len -> Lines], n \in 0..NV, nl \in BOOLEAN} : len \in 0..NL}
 DInit == file \in Files /\ pos = 1 /\ rn = 0 /\ redges = <<>> /\ failed = FALSE
